@@ -689,6 +689,17 @@ def nDelete (st : St) (path : List Nat) (i : Int) : St × Outcome :=
     let res := cDelete c i
     ({ st with rules := setPath st.rules res.1 path, gone := st.gone ++ res.2.1 }, res.2.2)
 
+/-- `container.cssText = text` with a text that is not a complete @media / @page rule: content after the closing
+brace (a blank, a comment, `;`, another rule), or a block that is not closed (after a child that is no block, or
+with no child). `CSSMediaRule._setCssText` reports 'Trailing content' / 'No "}" found' before it looks at the
+children (`cssmediarule.py:131-160`), `CSSPageRule._setCssText` sets `ok = False` (`csspagerule.py:317-327`): a
+SyntaxErr in raise mode; in log-only mode the call returns and the rule list is the old one, untouched — its rules
+still name the container (the media query may have been taken over: not a matter of structure). -/
+def nSetBroken (st : St) (path : List Nat) : St × Outcome :=
+  match atPath st.rules path with
+  | none => (st, .badOp)
+  | some c => if !isContainer c then (st, .badOp) else (st, logError st.raising .syntaxErr)
+
 def nSetText (st : St) (path : List Nat) (kids : List Spec) : St × Outcome :=
   match atPath st.rules path with
   | none => (st, .badOp)
@@ -733,6 +744,8 @@ inductive Op where
   | nInsert (path : List Nat) (s : Spec) (index : Option Int) (viaStr : Bool)
   | nDelete (path : List Nat) (i : Int)
   | nSetText (path : List Nat) (kids : List Spec)
+  /-- `container.cssText = <almost a rule: trailing content or an unclosed block>` -/
+  | nSetBroken (path : List Nat)
   | setMode (raising : Bool)
   deriving Repr
 
@@ -750,6 +763,7 @@ def step (st : St) : Op → St × Outcome
   | .nInsert path s i v => nInsert st path s i v
   | .nDelete path i => nDelete st path i
   | .nSetText path kids => nSetText st path kids
+  | .nSetBroken path => nSetBroken st path
   | .setMode b => ({ st with raising := b }, .none)
 
 def run (st : St) : List Op → St
